@@ -415,6 +415,9 @@ def prune(rep, rule, mod, fname):
             if i <= leaf[0] or nt(e.r) == '%s[-1]' % STORE or \
                     nt(e.r.value) == 'self._provided':
                 continue
+            if nt(e.r.value) == STORE:
+                probs.append('an element in the middle of the per-order list %s is '
+                             'deleted (shifts all higher orders)' % STORE)
             slot = nt(e.r)
             before = [(c, t) for c, t, p in ps.order if p <= i and c == slot]
             pruned += 1
@@ -450,6 +453,16 @@ def prune(rep, rule, mod, fname):
                     and alloc_site(e.r.func.value) == alloc_site(base)]
             if recs and d != 'rev':
                 probs.append('the recorded descent is walked %s (required: leaf -> root)' % d)
+            # the per-order LIST is not a level of the descent: removing an
+            # element in its middle shifts every higher order down (only
+            # trailing empty mappings may be dropped, below)
+            recorded = [a for e in recs for a in e.r.args] + (
+                list(base.elts) if isinstance(base, (ast.List, ast.Tuple)) else [])
+            for r_ in recorded:
+                if isinstance(r_, ast.Tuple) and r_.elts and nt(r_.elts[0]) == STORE:
+                    probs.append('the per-order list %s itself is recorded as a level of '
+                                 'the descent: pruning it removes an element in the '
+                                 'middle of the list and shifts all higher orders' % STORE)
         for e in ps.events:
             if e.kind == 'call' and isinstance(e.r.func, ast.Attribute) and \
                     e.r.func.attr == 'pop' and e.r.args and nt(e.r.args[0]) == '0' and \
